@@ -37,26 +37,27 @@ type RawMut struct {
 }
 
 type Archive struct {
-	Format  string            `json:"format"` // ustar pax gnu auto
-	Entries []Entry           `json:"entries"`
-	Raw     []RawMut          `json:"raw,omitempty"`
-	CutTar  int               `json:"cut_tar,omitempty"` // truncate the tar stream at this many 512-blocks before compressing (0 = no)
-	Reader  simkit.ReaderPlan `json:"reader"`
-	Dst     string            `json:"dst,omitempty"` // unpack this archive into another destination (default: the scenario's)
-	Wipe    bool              `json:"wipe,omitempty"` // the caller empties and re-creates the destination before this Unpack
+	Format      string            `json:"format"` // ustar pax gnu auto
+	Entries     []Entry           `json:"entries"`
+	Raw         []RawMut          `json:"raw,omitempty"`
+	CutTar      int               `json:"cut_tar,omitempty"` // truncate the tar stream at this many 512-blocks before compressing (0 = no)
+	Reader      simkit.ReaderPlan `json:"reader"`
+	Dst         string            `json:"dst,omitempty"`          // unpack this archive into another destination (default: the scenario's)
+	SplitMember int               `json:"split_member,omitempty"` // >0: the gzip stream has two members, the first holding exactly this many entries
+	Wipe        bool              `json:"wipe,omitempty"`         // the caller empties and re-creates the destination before this Unpack
 }
 
 type Scenario struct {
-	World    string    `json:"world"`
-	Profile  string    `json:"profile"`
-	Seed     uint64    `json:"seed"`
-	UID      int       `json:"uid"`
-	Umask    int       `json:"umask"`
-	Dst      string    `json:"dst"`
-	Allow    []string  `json:"allow,omitempty"`
-	FailFirst bool     `json:"fail_first,omitempty"` // archive 0 is an earlier call that is refused half-way; the destination is emptied afterwards
-	SharedPacker bool  `json:"shared_packer,omitempty"` // one *Packer serves all Unpack calls of the scenario
-	Archives []Archive `json:"archives"`
+	World        string    `json:"world"`
+	Profile      string    `json:"profile"`
+	Seed         uint64    `json:"seed"`
+	UID          int       `json:"uid"`
+	Umask        int       `json:"umask"`
+	Dst          string    `json:"dst"`
+	Allow        []string  `json:"allow,omitempty"`
+	FailFirst    bool      `json:"fail_first,omitempty"`    // archive 0 is an earlier call that is refused half-way; the destination is emptied afterwards
+	SharedPacker bool      `json:"shared_packer,omitempty"` // one *Packer serves all Unpack calls of the scenario
+	Archives     []Archive `json:"archives"`
 }
 
 var typeFlags = map[string]byte{
@@ -151,6 +152,62 @@ func fixChecksum(blk []byte) {
 		sum += int(c)
 	}
 	copy(blk[148:156], []byte(fmt.Sprintf("%06o\x00 ", sum)))
+}
+
+// GzipSplit compresses a tar stream as two gzip members, the first holding the
+// first k entries exactly (it ends on a tar record boundary).
+func (a *Archive) GzipSplit(raw []byte) []byte {
+	if a.SplitMember <= 0 {
+		return Gzip(raw)
+	}
+	off := entryBoundary(raw, a.SplitMember)
+	if off <= 0 || off >= len(raw) {
+		return Gzip(raw)
+	}
+	return append(Gzip(raw[:off]), Gzip(raw[off:])...)
+}
+
+// entryBoundary returns the byte offset in a tar stream written by BuildTar at
+// which logical entry number k (0-based count of tar.Reader entries) ends: it
+// walks 512-byte blocks, following header sizes, and counts only entries the
+// reader reports (PAX 'x' and GNU 'L'/'K' headers belong to the entry they precede).
+func entryBoundary(raw []byte, k int) int {
+	off := 0
+	seen := 0
+	for off+512 <= len(raw) {
+		blk := raw[off : off+512]
+		allZero := true
+		for _, c := range blk {
+			if c != 0 {
+				allZero = false
+				break
+			}
+		}
+		if allZero {
+			return -1
+		}
+		size := parseOctal(blk[124:136])
+		tf := blk[156]
+		next := off + 512 + int((size+511)/512*512)
+		if tf != 'x' && tf != 'L' && tf != 'K' {
+			seen++
+			if seen == k {
+				return next
+			}
+		}
+		off = next
+	}
+	return -1
+}
+
+func parseOctal(b []byte) int64 {
+	var v int64
+	for _, c := range b {
+		if c >= '0' && c <= '7' {
+			v = v*8 + int64(c-'0')
+		}
+	}
+	return v
 }
 
 // Gzip compresses a tar stream deterministically.
